@@ -208,6 +208,32 @@ def run(workers):
         t.join()
     sh("git -C /repo worktree prune")
 
+def recheck(workers):
+    """Survivors of the first pass against every check that has not seen them yet (a mutant can be outside the
+    properties anchored in its file and inside another's)."""
+    plan = {c["id"]: c for c in json.load(open(PLAN))}
+    todo = []
+    for l in open(OUT):
+        r = json.loads(l)
+        if r["result"] != "survived":
+            continue
+        if re.search(r"invalid_number_of_parameters!|with_capacity|trace", r["old"]):
+            continue
+        c = dict(plan[r["id"]])
+        c["props"] = [p for p in ["C%02d" % i for i in range(1, 21)] if p not in r.get("ran", [])]
+        c["id"] = 100000 + r["id"]
+        todo.append(c)
+    done = {json.loads(l)["id"] for l in open(OUT)}
+    todo = [c for c in todo if c["id"] not in done]
+    print("rechecking %d survivors" % len(todo))
+    ts = [threading.Thread(target=worker, args=(w, todo)) for w in range(1, workers + 1)]
+    for t in ts:
+        t.start()
+    for t in ts:
+        t.join()
+    sh("git -C /repo worktree prune")
+
+
 def show():
     rs = [json.loads(l) for l in open(OUT)]
     c = collections.Counter(r["result"] for r in rs)
@@ -229,3 +255,5 @@ if __name__ == "__main__":
         run(int(a[1]) if len(a) > 1 else 4)
     elif a[0] == "show":
         show()
+    elif a[0] == "recheck":
+        recheck(int(a[1]) if len(a) > 1 else 4)
